@@ -135,6 +135,11 @@ def positions(nodes):
     return sorted(out, key=repr)
 
 
+def _kw():
+    from props import cait_common as cc
+    return cc.kw()
+
+
 class Checker:
     def __init__(self, ctx, src, origin, mode=None):
         from pedal.core.commands import clear_report, contextualize_report
@@ -148,11 +153,13 @@ class Checker:
             origin, mode = origin.split('|mode=')
         if mode is None:
             mode = ('plain', 'verified-first', 'plain', 'verified-first', 'second-section', 'plain', 'after-verifying-other-code', 'verified-first',
-                    'after-sections-were-stopped', 'attached-without-clearing')[Checker.made % 10]
+                    'after-sections-were-stopped', 'attached-without-clearing', 'on-a-report-of-its-own')[Checker.made % 11]
             fresh = True
         else:
             fresh = False
-        if mode in ('after-verifying-other-code', 'after-sections-were-stopped', 'attached-without-clearing'):
+        from props import cait_common as _cc
+        _cc.PRESENTED['report'] = None
+        if mode in ('after-verifying-other-code', 'after-sections-were-stopped', 'attached-without-clearing', 'on-a-report-of-its-own'):
             # histories after which the Source tool holds the tree of some OTHER text (see props/cait_common.present)
             from props import cait_common as cc
             self.src = cc.present(ctx, src, mode, fresh=fresh)
@@ -227,7 +234,7 @@ class Checker:
                 case = {'src': self.src if len(self.src) < 3000 else self.src[:3000], 'origin': self.origin, 'query': '%s_%s' % (which, kind), 'arg': repr(arg), 'threshold': n,
                         'oracle_count': count}
                 try:
-                    fb = fn(arg, **kw)
+                    fb = fn(arg, **kw, **_kw())
                 except Exception as e:
                     ctx.violation('C08|%s_%s-raised|%s' % (which, keyname, type(e).__name__), case, traceback.format_exc()[-500:])
                     continue
@@ -263,7 +270,7 @@ class Checker:
             self.ensure_prevent('operation', st.ensure_operation, st.prevent_operation, sym, len(occ), [p[0] for p in occ], True, 'operation[%s]' % sym)
             self.disturb()
             try:
-                found = find_operation(sym)
+                found = find_operation(sym, **_kw())
             except Exception as e:
                 ctx.violation('C08|find_operation-raised|%s' % type(e).__name__, {'src': self.src[:3000], 'arg': sym}, traceback.format_exc()[-400:])
                 continue
@@ -279,7 +286,7 @@ class Checker:
             occ = calls.get(name, [])
             self.ensure_prevent('function_call', st.ensure_function_call, st.prevent_function_call, name, len(occ), [p[0] for p in occ], bool(occ))
             self.disturb()
-            found = find_function_calls(name)
+            found = find_function_calls(name, **_kw())
             ctx.count('node_positions_compared')
             if positions(found) != sorted(occ, key=repr):
                 ctx.violation('C08|find_function_calls|nodes-differ', {'src': self.src[:3000], 'origin': self.origin, 'query': 'find_function_calls', 'arg': name},
@@ -332,7 +339,7 @@ class Checker:
                 continue
             self.ensure_prevent('ast', st.ensure_ast, st.prevent_ast, k, len(occ), [p[0] for p in occ], bool(occ))
             self.disturb()
-            found = parse_program().find_all(k)
+            found = parse_program(**_kw()).find_all(k)
             ctx.count('node_positions_compared')
             if positions(found) != sorted(occ, key=repr):
                 ctx.violation('C08|find_all|nodes-differ|%s' % k, {'src': self.src[:3000], 'origin': self.origin, 'query': 'find_all', 'arg': k},
@@ -345,7 +352,7 @@ class Checker:
                 self.disturb()
                 case = {'src': self.src[:3000], 'origin': self.origin, 'query': which + '_import', 'arg': m}
                 try:
-                    fb = fn(m)
+                    fb = fn(m, **_kw())
                 except Exception as e:
                     ctx.violation('C08|%s_import-raised|%s' % (which, type(e).__name__), case, traceback.format_exc()[-400:])
                     continue
